@@ -65,6 +65,7 @@ THEOREMS = [
     'C11.init_named_route', 'C11.init_type_error_iff',
     # compliance path in closed form (no assumption about the inverse) for the cubic system
     'C11.cubic_mul_cubicS', 'C11.cubicS_mul_cubic', 'C11.cubic_compliance_unique', 'C11.cubic_moduli',
+    'C11.hex_mul_hexS', 'C11.hexS_mul_hex', 'C11.hex_compliance_unique', 'C11.hex_bulk',
 ]
 PARTIAL = {
     'transform_with_cleanups': 'transform_id/comp/inv, energy and moduli invariance and system_invariant_* are proved for '
@@ -1531,15 +1532,21 @@ RULE = ('Cij inputs: the 21 symmetric basis matrices (index probing), random sym
         'line; non-trivial = non-error case with a non-diagonal / non-identity input')
 ASSUMPTIONS = [
     'numpy.linalg.inv returns the inverse: the model takes the exact rational inverse (hypothesis C*S = 1 and S*C = 1 '
-    'in the theorems); compared with rtol 1e-9*cond',
+    'in the theorems); compared with rtol 1e-9*cond.  For the isotropic and the cubic template the inverse is written '
+    'out and proved (isoS, cubicS, hexS: cubic_mul_cubicS, cubicS_mul_cubic, cubic_compliance_unique, hex_*): no assumption there',
     'float square roots (isotropic E-pairs, row norms in axes_check) are parameters: the harness passes the correctly '
-    'rounded double of the exact radicand / the numpy row norms; theorems assume r*r = radicand, r >= 0',
+    'rounded double of the exact radicand / the numpy row norms; theorems assume r*r = radicand, r >= 0 (axes_check: '
+    'norms i > 0 and norms i * norms i = sum_k axes i k ^ 2, for rows of ANY length: axesCheck_normalises, '
+    'transform_rotates_by_unit_axes)',
+    'python keyword names of one call are distinct: initRoute takes the keyword SET as a list of distinct strings',
     'IEEE rounding of einsum/arithmetics is bounded by rtol 1e-9 (1e-9*cond where an inverse is involved); entries '
     'whose exact value lies within a factor (1 +- 1e-6) of a clean-up threshold (|C/Cmax| = 1e-9 or tol) are exempt',
     'numpy einsum computes the contraction its subscripts denote; np.isclose(a,b) is |a-b| <= atol + rtol*|b|',
 ]
 TRUSTED = ['numpy (einsum, linalg.inv/norm, isclose/allclose)', 'fractions.Fraction oracle in search()',
-           'symbolic executor for kwargs dispatch in harness/props/c11.py']
+           'symbolic executor for kwargs dispatch in harness/props/c11.py',
+           'symbolic 3x3-array evaluator for tools/axes_check.py and the if/elif chain parser for __init__ in '
+           'harness/props/c11.py (numpy broadcasting of matrix / vector, np.dot, np.cross as written there)']
 
 
 def _np():
@@ -4484,6 +4491,30 @@ def _check_transform_options(ctx, rng, n):
                     f'{got[tuple(np.argwhere(got != exp)[0])]!r} expected {exp[tuple(np.argwhere(got != exp)[0])]!r}'
                 ctx.violate('transform:tol', f'transform(signed permutation, tol={tol!r} [{how}]) of a tensor with small '
                             f'entries: {e or "differs from the exactly rotated tensor with |C/Cmax| < tol dropped"}{bad}', rep)
+        # tol is the clean-up threshold of the rotated tensor ONLY: it neither licenses skewed axes (a large tol) nor
+        # forbids axes that are orthonormal to rounding (tol = 0); the orthogonality tolerance stays axes_check's own
+        Rf = _rand_rotation(rng)
+        ref, e0 = _call(lambda: ec.transform(Rf).Cij)
+        for tol, how in ((0, 'kw'), (0.0, 'pos'), (1e-30, 'kw'), (1e-12, 'pos')):
+            got, e = _call(lambda: (ec.transform(Rf, tol=tol) if how == 'kw' else ec.transform(Rf, tol)).Cij)
+            rep = {'op': 'transformtolaxes', 'Cij': C.tolist(), 'axes': Rf.tolist(), 'tol': tol, 'how': how}
+            ctx.stats.case('oracle:transform-tol-axes', (how, tol, cm.frs(C), cm.frs(Rf)))
+            if e0 is None and (e is not None or not np.allclose(got, ref, rtol=1e-12, atol=1.01e-8 * float(np.abs(ref).max()))):
+                ctx.violate('transform:tol-axes', f'transform(rotation matrix, tol={tol!r} [{how}]): '
+                            f'{e or "differs from the default-tol result beyond the clean-up"}: a small tol must only '
+                            'keep more small entries, not refuse axes that are orthonormal to rounding', rep)
+        k0, k1 = rng.sample(range(3), 2)
+        skew = rng.choice([1e-6, 1e-5, 1e-4, 1e-3])
+        A = Rf.copy()
+        A[k0] = A[k0] + skew * A[k1]
+        for tol, how in ((0.5, 'kw'), (1e-2, 'pos'), (30 * skew, 'kw')):
+            _, e = _call(lambda: ec.transform(A, tol=tol) if how == 'kw' else ec.transform(A, tol))
+            rep = {'op': 'transformtolaxes', 'Cij': C.tolist(), 'axes': A.tolist(), 'tol': tol, 'how': how}
+            ctx.stats.case('oracle:transform-tol-axes:skew', (how, tol, skew, cm.frs(Rf)))
+            if e != 'err:value':
+                ctx.violate('refusal:missing:skewed-axes', f'transform(axes {skew:g} off orthogonal, tol={tol!r} [{how}]) '
+                            f'{"accepted the axes" if e is None else e}: tol is the clean-up threshold, the axes must be '
+                            'refused (ValueError) as at the default tol', rep)
         # forms of the axes argument
         scal = np.array([[rng.choice([1.0, 2.0, 4.0, 0.5])] for _ in range(3)])
         Rq = _quat_rot(rng)[0]
@@ -4941,6 +4972,7 @@ def replay(ctx, payload):
         elif op == 'refusedset':
             _check_refused_set(ctx, random.Random(0), np.array(r['Cij']), {'Cij': r['Cij']}, fixed=r['setter'])
         elif op in ('moduli', 'refusal', 'scalarform', 'isnormal', 'transformtol', 'axesform', 'inputform', 'axescheck',
+                    'transformtolaxes',
                     'model', 'model-old'):
             _replay_audit(ctx, r)
         else:
@@ -4969,7 +5001,15 @@ MANIFEST = {
             'about the principal axes, coincidental ties, every block pattern of the Voigt indices) go through all '
             'clauses; stored states are fixed points of the Cij setter, transform '
             'is homogeneous under a change of units, and normalisation through the setter is idempotent for five of '
-            'the eight targets (theorems).',
+            'the eight targets (theorems).'
+            '  Round 5: tools/axes_check.py and the if / elif chain of __init__ are regenerated as well '
+            '(Generated/AxesCheck.lean, InitRoute.lean): axes are DIRECTIONS - transform rotates by the unit vectors of '
+            'axis vectors of any length (far from / a hair off unit length, typed decimals), is invariant under rescaling '
+            'of each vector, refuses left-handed triples (theorems; generators draw the three row lengths at every '
+            'scale and the oracle compares with the rotation by the exactly normalised rows); __init__ refuses a matrix '
+            'keyword mixed with anything else and raises TypeError exactly for the undocumented keyword counts; the '
+            'cubic compliance is a closed form, so Voigt / Reuss / Hill of a cubic crystal need no assumption on the '
+            'inverse.',
     'note': 'Trusted: Lean kernel + propext/Classical.choice/Quot.sound; the translator/symbolic executor in '
             'harness/props/c11.py; numpy einsum/inv/isclose. The 6x6 inverse and the square roots are parameters with '
             'hypotheses (C*S = 1 and S*C = 1; r*r = radicand, r >= 0). Float rounding and the 1e-8/1e-9 clean-ups are '
